@@ -4,13 +4,18 @@ import MLPE.Proofs.WakeUp
 /-!
 # Stuck-freedom of pipelines with switches (no one-of, no recurrent subgraph), under every schedule
 
-`LInv`: an invariant of every reachable state of a pending run that rules out the idle-and-pending state: some task is
-runnable, or a node body / retry timer is outstanding.  Values play no role here.  The invariant describes every task by
-its frame stack (`TaskOK`), keeps the bookkeeping of the launch loops (`Launched`: every node of a DAG that the loop has
-passed is processed or has its task), and states *no lost wake-up* in the form the code guarantees it: a launcher that is
-blocked on `cond[m]` although `m` is ready has an **owner** — a live task that is still going to notify `cond[m]`: the
-task running a source of `m` (its `finally` notifies the descendants, passing through switch nodes), or the `_run_switch`
-task of a switch source (it notifies the consumers when it returns).
+`Struct`: an invariant of every state of a pending run that rules out the idle-and-pending state: some task is runnable,
+or a node body / retry timer is outstanding.  Values play no role.  The invariant describes every task by its name and
+frame stack (`TaskOK`), keeps the bookkeeping of the launch loops (`Launched`: every node of a DAG that its loop has
+passed is processed, or its fresh task is about to start, or — a switch node — has its `_run_switch` task), and states *no
+lost wake-up* the way the code guarantees it: `run()` blocked ⇒ no task has failed and the output has no result; a
+node's waiter blocked ⇒ the node is being executed by a live task; a launch loop blocked on `cond[m]` ⇒ `m` is not ready,
+or it became ready because a switch source recorded its decision when the selected case had been computed already — and
+then the `_run_switch` task of that switch has not returned yet: it notifies its consumers when it does.
+
+Scope: collaborators (event managers, artifact store) that complete **without suspending** (they may raise): a result
+is then stored and announced in one section.  (For plain pipelines `Proofs/Plain.lean` also covers suspending
+collaborators.)
 -/
 namespace MLPE.Eng
 open MLPE
@@ -43,34 +48,34 @@ def basePreds (P : Program) (m : Node) : List Node :=
 def resolveSw (P : Program) (s : St) (p : Node) : Node :=
   if P.g.isSwitch p then (match s.sw p with | some (_, c) => c | none => p) else p
 
-/-- a live task whose top frame is the node frame of `u` and that is not waiting for `u`'s event: it is going to run the
-`finally` of `_run_node` for `u` -/
-def NodeOwner (s : St) (u : Node) : Prop :=
-  ∃ (i : Nat) (tk : Task), s.tasks[i]? = some tk ∧ tk.live ∧ ∃ (d : DagRef) (f : Bool) (pc : NodePc), tk.frames = [.node d u f pc] ∧ pc ≠ .evWait
+/-- the node frame is past `on_node_start`: the task executes the node -/
+def NodePc.exec : NodePc → Bool
+  | .start => false
+  | .evWait => false
+  | _ => true
 
 /-- a live task that is executing `n` (it marked `n` as processed) -/
 def Executor (s : St) (n : Node) : Prop :=
-  ∃ (i : Nat) (tk : Task), s.tasks[i]? = some tk ∧ tk.live ∧ ∃ (d : DagRef) (f : Bool) (pc : NodePc), tk.frames = [.node d n f pc] ∧ pc ≠ .evWait ∧ pc ≠ .start
+  ∃ (i : Nat) (tk : Task), s.tasks[i]? = some tk ∧ tk.live ∧ ∃ (d : DagRef) (f : Bool) (pc : NodePc),
+    tk.frames = [.node d n f pc] ∧ pc.exec = true
 
-/-- a `_run_switch` task for `S` that has recorded its decision and has not returned; it is not sitting in the final wait
-of its sub-DAG -/
+/-- a `_run_switch` task for `S` that has not returned and is not sitting in the final wait of its sub-DAG: it is going
+to notify the consumers of `S` -/
 def SwOwner (s : St) (S : Node) : Prop :=
   ∃ (i : Nat) (tk : Task), s.tasks[i]? = some tk ∧ tk.nonDone ∧
-    ((∃ d, tk.frames = [.switchRet d S]) ∨
+    ((∃ d, tk.frames = [.switchStart d S]) ∨ (∃ d, tk.frames = [.switchRet d S]) ∨
      (∃ d sub, tk.frames = [.dagInit sub, .switchRet d S]) ∨
      (∃ d sub rest, tk.frames = [.dagLaunch sub rest, .switchRet d S]))
 
 /-- somebody is still going to notify `cond[m]` -/
-def OwnerM (P : Program) (s : St) (m : Node) : Prop :=
-  ∃ u ∈ basePreds P m,
-    (P.g.isSwitch u = false ∧ NodeOwner s u) ∨
-    (P.g.isSwitch u = true ∧ ∃ l c, s.sw u = some (l, c) ∧ (NodeOwner s c ∨ SwOwner s u))
+def OwnerM (P : Program) (s : St) (m : Node) : Prop := ∃ S ∈ basePreds P m, P.g.isSwitch S = true ∧ SwOwner s S
 
 /-- the launch loop has dealt with `q`: an ordinary node is processed or its freshly created task is about to start; a
 switch node has its `_run_switch` task -/
 def Launched (P : Program) (s : St) (q : Node) : Prop :=
   if P.g.isSwitch q then ∃ (i : Nat) (tk : Task), s.tasks[i]? = some tk ∧ tk.name = .node q
-  else s.proc q = true ∨ ∃ (i : Nat) (tk : Task) (d : DagRef), s.tasks[i]? = some tk ∧ tk.frames = [.node d q false .start] ∧ tk.st = .runnable .go
+  else s.proc q = true ∨ ∃ (i : Nat) (tk : Task) (d : DagRef), s.tasks[i]? = some tk ∧ tk.frames = [.node d q false .start] ∧
+    tk.st = .runnable .go
 
 /-- what the liveness argument needs to know about a DAG a launch loop works on -/
 structure DagOK (P : Program) (d : DagRef) : Prop where
@@ -106,12 +111,11 @@ def LaunchSt (P : Program) (s : St) (tk : Task) : Frame → Prop
 
 /-- every task, by name and frame stack -/
 inductive TaskOK (P : Program) (depth : Node → Nat) (s : St) : Task → Prop
-  | callerStart (tk : Task) : tk.name = .caller → tk.frames = [.mgrStart] → (∃ rv, tk.st = .runnable rv) → TaskOK P depth s tk
-  | callerCb (tk : Task) (j : Nat) : tk.name = .caller → tk.frames = [.mgrCbStart j] → (∃ rv, tk.st = .runnable rv) →
-      TaskOK P depth s tk
+  | callerStart (tk : Task) : tk.name = .caller → tk.frames = [.mgrStart] → (∃ rv, tk.st = .runnable rv) →
+      s.tasks.length = 1 → TaskOK P depth s tk
   | callerWait (tk : Task) : tk.name = .caller → tk.frames = [.mgrWait] →
       ((∃ rv, tk.st = .runnable rv) ∨
-       (tk.st = .blocked (.cond .run) ∧ taskErrors s = [] ∧ ((s.res P.g.output).isSome = true → NodeOwner s P.g.output))) →
+       (tk.st = .blocked (.cond .run) ∧ taskErrors s = [] ∧ s.res P.g.output = none)) →
       TaskOK P depth s tk
   | main (tk : Task) (F : Frame) (d : DagRef) : tk.name = .run → tk.frames = [F] → DagFrame P s F d → DagOK P d →
       d.dest = some P.g.output → P.g.output ∈ d.nodes → LaunchSt P s tk F → TaskOK P depth s tk
@@ -120,10 +124,12 @@ inductive TaskOK (P : Program) (depth : Node → Nat) (s : St) : Task → Prop
   | nodeStart (tk : Task) (d : DagRef) (q : Node) : tk.name = .node q → P.g.isSwitch q = false →
       tk.frames = [.node d q false .start] → tk.st = .runnable .go → TaskOK P depth s tk
   | nodeWait (tk : Task) (d : DagRef) (q : Node) : tk.name = .node q → P.g.isSwitch q = false →
-      tk.frames = [.node d q false .evWait] → ((∃ rv, tk.st = .runnable rv) ∨ tk.st = .blocked (.event q)) →
+      tk.frames = [.node d q false .evWait] →
+      (((∃ rv, tk.st = .runnable rv) ∧ s.evSet q = true) ∨ tk.st = .blocked (.event q)) →
       s.proc q = true → TaskOK P depth s tk
   | nodeExec (tk : Task) (d : DagRef) (q : Node) (pc : NodePc) : tk.name = .node q → P.g.isSwitch q = false →
-      tk.frames = [.node d q false pc] → pc ≠ .start → pc ≠ .evWait → tk.live → s.proc q = true → TaskOK P depth s tk
+      tk.frames = [.node d q false pc] → pc ≠ .start → pc ≠ .evWait → tk.live → s.proc q = true → s.res q = none →
+      TaskOK P depth s tk
   | nodeDone (tk : Task) (q : Node) (r : TaskRes) : tk.name = .node q → P.g.isSwitch q = false → tk.frames = [] →
       tk.st = .done r → r ≠ .cancelled → s.evSet q = true → TaskOK P depth s tk
   | swStart (tk : Task) (d : DagRef) (S : Node) : tk.name = .node S → P.g.isSwitch S = true →
@@ -132,7 +138,8 @@ inductive TaskOK (P : Program) (depth : Node → Nat) (s : St) : Task → Prop
       tk.frames = [F, .switchRet d S] → DagFrame P s F sub → SubOK' P depth s sub S → LaunchSt P s tk F →
       TaskOK P depth s tk
   | swRet (tk : Task) (d : DagRef) (S : Node) : tk.name = .node S → P.g.isSwitch S = true →
-      tk.frames = [.switchRet d S] → (∃ v, tk.st = .runnable (.ret v)) → (∃ lc, s.sw S = some lc) → TaskOK P depth s tk
+      tk.frames = [.switchRet d S] → (∃ v, tk.st = .runnable (.ret v)) →
+      (∃ l c, s.sw S = some (l, c) ∧ Launched P s c) → TaskOK P depth s tk
   | swDone (tk : Task) (S : Node) (r : TaskRes) : tk.name = .node S → P.g.isSwitch S = true → tk.frames = [] →
       tk.st = .done r → r ≠ .cancelled → (r = .ok → ∃ l c, s.sw S = some (l, c) ∧ Launched P s c) → TaskOK P depth s tk
 
@@ -144,8 +151,17 @@ structure LData (P : Program) (s : St) : Prop where
   c1     : ∀ n, s.proc n = true → s.evSet n = true ∨ Executor s n
   /-- an announced node has a result, unless its task failed (then `run()` has been notified) -/
   c4     : ∀ n, s.evSet n = true → (s.res n).isSome = true ∨ taskErrors s ≠ []
-  /-- a recorded decision names a case of the switch -/
+  /-- a result is stored and announced in one section -/
+  c5     : ∀ n, (s.res n).isSome = true → s.evSet n = true
+  /-- a recorded decision names a case of the switch, and is what the lookup gives -/
   swEdge : ∀ S l c, s.sw S = some (l, c) → P.g.isSwitch c = false ∧ ∃ e ∈ P.g.edges, e.u = c ∧ e.v = S
+  swSel  : ∀ S lc, s.sw S = some lc → switchSelect P s S = some lc
+  /-- a result belongs to a processed node -/
+  c6     : ∀ n, (s.res n).isSome = true → s.proc n = true
+  /-- a node is executed by one task -/
+  uniq   : ∀ (i j : Nat) (ti tj : Task) (q : Node) (d1 d2 : DagRef) (f1 f2 : Bool) (p1 p2 : NodePc),
+    s.tasks[i]? = some ti → s.tasks[j]? = some tj → ti.frames = [.node d1 q f1 p1] → tj.frames = [.node d2 q f2 p2] →
+    p1.exec = true → p2.exec = true → i = j
   noCancel : ∀ tk ∈ s.tasks, tk.mustCancel = false
 
 structure Struct (P : Program) (depth : Node → Nat) (s : St) : Prop where
@@ -155,11 +171,13 @@ structure Struct (P : Program) (depth : Node → Nat) (s : St) : Prop where
   /-- once `manager.run` waits, the main `_run_dag` task exists -/
   main   : ∀ tk, s.tasks[0]? = some tk → tk.frames = [.mgrWait] → ∃ tk1, s.tasks[1]? = some tk1 ∧ tk1.name = .run
 
-/-- hypotheses on the program: switches only, and a depth function along which every edge goes up -/
+/-- hypotheses on the program: switches only, a depth function along which every edge goes up, collaborators that do
+not suspend -/
 structure LiveP (P : Program) (depth : Node → Nat) : Prop where
-  sw      : SwP P
-  acyclic : ∀ e ∈ P.g.edges, depth e.u < depth e.v
+  sw       : SwP P
+  acyclic  : ∀ e ∈ P.g.edges, depth e.u < depth e.v
   outPlain : P.g.isSwitch P.g.output = false
+  noYield  : ∀ cb n, P.cbYield cb n = 0
 
 /-! ### the static part: a state that satisfies `Struct` is not stuck -/
 
@@ -229,7 +247,6 @@ theorem launcher_facts {P : Program} {depth : Node → Nat} {s : St} {tk : Task}
     (below = [] ∨ ∃ d' S, below = [.switchRet d' S] ∧ P.g.isSwitch S = true ∧ tk.name = .node S ∧ SubOK' P depth s d S) := by
   cases h with
   | callerStart hn hfr hst => rw [hfr] at hf; simp at hf
-  | callerCb j hn hfr hst => rw [hfr] at hf; simp at hf
   | callerWait hn hfr hst => rw [hfr] at hf; simp at hf
   | main F d0 hn hfr hdf hdag hdest hout hst =>
     rw [hfr] at hf
@@ -241,7 +258,7 @@ theorem launcher_facts {P : Program} {depth : Node → Nat} {s : St} {tk : Task}
   | mainDone hn hfr hst hres => rw [hfr] at hf; simp at hf
   | nodeStart d0 q hn hns hfr hst => rw [hfr] at hf; simp at hf
   | nodeWait d0 q hn hns hfr hst hproc => rw [hfr] at hf; simp at hf
-  | nodeExec d0 q pc hn hns hfr hpc1 hpc2 hlive hproc => rw [hfr] at hf; simp at hf
+  | nodeExec d0 q pc hn hns hfr hpc1 hpc2 hlive hproc hnores => rw [hfr] at hf; simp at hf
   | nodeDone q r0 hn hns hfr hst hnc hev => rw [hfr] at hf; simp at hf
   | swStart d0 S0 hn hsS hfr hst => rw [hfr] at hf; simp at hf
   | swIn F sub d0 S0 hn hsS hfr hdf hsub hst =>
@@ -254,28 +271,35 @@ theorem launcher_facts {P : Program} {depth : Node → Nat} {s : St} {tk : Task}
   | swRet d0 S0 hn hsS hfr hst hsw => rw [hfr] at hf; simp at hf
   | swDone S0 r0 hn hsS hfr hst hnc hok => rw [hfr] at hf; simp at hf
 
-/-- a task with a `_run_switch` frame of `S` is a `_run_switch` task of `S` -/
+/-- a task with a `_run_switch` frame of `S` is runnable, or sits in the launch loop of the sub-DAG -/
 theorem swOwner_task {P : Program} {depth : Node → Nat} {s : St} {tk : Task} (h : TaskOK P depth s tk) (hnd : tk.nonDone)
-    {S : Node} (hfr' : (∃ d, tk.frames = [.switchRet d S]) ∨ (∃ d sub, tk.frames = [.dagInit sub, .switchRet d S]) ∨
+    {S : Node} (hfr' : (∃ d, tk.frames = [.switchStart d S]) ∨ (∃ d, tk.frames = [.switchRet d S]) ∨
+      (∃ d sub, tk.frames = [.dagInit sub, .switchRet d S]) ∨
       (∃ d sub rest, tk.frames = [.dagLaunch sub rest, .switchRet d S])) :
     (∃ rv, tk.st = .runnable rv) ∨ (∃ sub m r d, tk.frames = .dagLaunch sub (m :: r) :: [.switchRet d S]) := by
   cases h with
-  | callerStart hn hfr hst => rcases hfr' with ⟨d1, h⟩ | ⟨d1, s1, h⟩ | ⟨d1, s1, r1, h⟩ <;> rw [hfr] at h <;> simp at h
-  | callerCb j hn hfr hst => rcases hfr' with ⟨d1, h⟩ | ⟨d1, s1, h⟩ | ⟨d1, s1, r1, h⟩ <;> rw [hfr] at h <;> simp at h
-  | callerWait hn hfr hst => rcases hfr' with ⟨d1, h⟩ | ⟨d1, s1, h⟩ | ⟨d1, s1, r1, h⟩ <;> rw [hfr] at h <;> simp at h
+  | callerStart hn hfr hst =>
+    rcases hfr' with ⟨d1, h⟩ | ⟨d1, h⟩ | ⟨d1, s1, h⟩ | ⟨d1, s1, r1, h⟩ <;> rw [hfr] at h <;> simp at h
+  | callerWait hn hfr hst =>
+    rcases hfr' with ⟨d1, h⟩ | ⟨d1, h⟩ | ⟨d1, s1, h⟩ | ⟨d1, s1, r1, h⟩ <;> rw [hfr] at h <;> simp at h
   | main F d0 hn hfr hdf hdag hdest hout hst =>
-    rcases hfr' with ⟨d1, h⟩ | ⟨d1, s1, h⟩ | ⟨d1, s1, r1, h⟩
+    rcases hfr' with ⟨d1, h⟩ | ⟨d1, h⟩ | ⟨d1, s1, h⟩ | ⟨d1, s1, r1, h⟩
+    · rw [hfr] at h; simp only [List.cons.injEq, and_true] at h; subst h; cases hdf
     · rw [hfr] at h; simp only [List.cons.injEq, and_true] at h; subst h; cases hdf
     · rw [hfr] at h; simp at h
     · rw [hfr] at h; simp at h
   | mainDone hn hfr hst hres => exact absurd hst (hnd _)
-  | nodeStart d0 q hn hns hfr hst => rcases hfr' with ⟨d1, h⟩ | ⟨d1, s1, h⟩ | ⟨d1, s1, r1, h⟩ <;> rw [hfr] at h <;> simp at h
-  | nodeWait d0 q hn hns hfr hst hproc => rcases hfr' with ⟨d1, h⟩ | ⟨d1, s1, h⟩ | ⟨d1, s1, r1, h⟩ <;> rw [hfr] at h <;> simp at h
-  | nodeExec d0 q pc hn hns hfr hpc1 hpc2 hlive hproc => rcases hfr' with ⟨d1, h⟩ | ⟨d1, s1, h⟩ | ⟨d1, s1, r1, h⟩ <;> rw [hfr] at h <;> simp at h
+  | nodeStart d0 q hn hns hfr hst =>
+    rcases hfr' with ⟨d1, h⟩ | ⟨d1, h⟩ | ⟨d1, s1, h⟩ | ⟨d1, s1, r1, h⟩ <;> rw [hfr] at h <;> simp at h
+  | nodeWait d0 q hn hns hfr hst hproc =>
+    rcases hfr' with ⟨d1, h⟩ | ⟨d1, h⟩ | ⟨d1, s1, h⟩ | ⟨d1, s1, r1, h⟩ <;> rw [hfr] at h <;> simp at h
+  | nodeExec d0 q pc hn hns hfr hpc1 hpc2 hlive hproc hnores =>
+    rcases hfr' with ⟨d1, h⟩ | ⟨d1, h⟩ | ⟨d1, s1, h⟩ | ⟨d1, s1, r1, h⟩ <;> rw [hfr] at h <;> simp at h
   | nodeDone q r0 hn hns hfr hst hnc hev => exact absurd hst (hnd _)
-  | swStart d0 S0 hn hsS hfr hst => rcases hfr' with ⟨d1, h⟩ | ⟨d1, s1, h⟩ | ⟨d1, s1, r1, h⟩ <;> rw [hfr] at h <;> simp at h
+  | swStart d0 S0 hn hsS hfr hst => exact Or.inl ⟨_, hst⟩
   | swIn F sub d0 S0 hn hsS hfr hdf hsub hst =>
-    rcases hfr' with ⟨d1, h⟩ | ⟨d1, s1, h⟩ | ⟨d1, s1, r1, h⟩
+    rcases hfr' with ⟨d1, h⟩ | ⟨d1, h⟩ | ⟨d1, s1, h⟩ | ⟨d1, s1, r1, h⟩
+    · rw [hfr] at h; simp at h
     · rw [hfr] at h; simp at h
     · rw [hfr] at h; simp only [List.cons.injEq, and_true] at h
       obtain ⟨hF, _⟩ := h; subst hF; exact Or.inl hst
@@ -313,15 +337,11 @@ theorem launcher_absurd {P : Program} {depth : Node → Nat} (hp : LiveP P depth
         have hlt : depth m' < depth m := depth_chain hp hs.data hSm hsubok (hsub2 m' (by simp))
         exact ih (depth m') (by rw [← hD]; exact hlt) i' tk' sub m' r' _ hi' hfr' rfl
     by_cases hready : ready P s d m = true
-    · -- ready after all: the owner is live, or is a `_run_switch` task in the launch loop of its sub-DAG
-      obtain ⟨u, hu, hcase⟩ := hblocked.2 hready
-      rcases hcase with ⟨_, ⟨i', tk', h1, h2, _⟩⟩ | ⟨hSs, l, c, hsw, hown⟩
-      · exact hq i' tk' h1 h2
-      · rcases hown with ⟨i', tk', h1, h2, _⟩ | ⟨i', tk', h1, hnd, hfr⟩
-        · exact hq i' tk' h1 h2
-        · rcases swOwner_task (hs.tasks i' tk' h1) hnd hfr with h | ⟨sub, m', r', d', h⟩
-          · exact hq.not_runnable h1 h
-          · exact sub_absurd u hu i' tk' sub m' r' d' h1 h
+    · -- ready after all: the owner is a `_run_switch` task that is runnable or in the launch loop of its sub-DAG
+      obtain ⟨S, hS, _, i', tk', h1, hnd, hfr⟩ := hblocked.2 hready
+      rcases swOwner_task (hs.tasks i' tk' h1) hnd hfr with h | ⟨sub, m', r', d', h⟩
+      · exact hq.not_runnable h1 h
+      · exact sub_absurd S hS i' tk' sub m' r' d' h1 h
     · -- not ready: some resolved source has no result
       have hnr : ready P s d m = false := by simpa using hready
       unfold ready at hnr
@@ -351,13 +371,12 @@ theorem launcher_absurd {P : Program} {depth : Node → Nat} (hp : LiveP P depth
           simp [this.1, this.2] at hpno
         cases hs.tasks i' tk' hi' with
         | callerStart hn hfr hst => rw [hn] at hname; cases hname
-        | callerCb j hn hfr hst => rw [hn] at hname; cases hname
         | callerWait hn hfr hst => rw [hn] at hname; cases hname
         | main F d0 hn hfr hdf hdag hdest hout hst => rw [hn] at hname; cases hname
         | mainDone hn hfr hst hres => rw [hn] at hname; cases hname
         | nodeStart d0 q hn hns hfr hst => rw [hn] at hname; cases hname; rw [hSu] at hns; cases hns
         | nodeWait d0 q hn hns hfr hst hproc => rw [hn] at hname; cases hname; rw [hSu] at hns; cases hns
-        | nodeExec d0 q pc hn hns hfr hpc1 hpc2 hlive hproc => rw [hn] at hname; cases hname; rw [hSu] at hns; cases hns
+        | nodeExec d0 q pc hn hns hfr hpc1 hpc2 hlive hproc hnores => rw [hn] at hname; cases hname; rw [hSu] at hns; cases hns
         | nodeDone q r0 hn hns hfr hst hnc hev => rw [hn] at hname; cases hname; rw [hSu] at hns; cases hns
         | swStart d0 S0 hn hsS hfr hst => exact hq.not_runnable hi' ⟨_, hst⟩
         | swIn F sub d0 S0 hn hsS hfr hdf hsub hst =>
@@ -388,21 +407,13 @@ theorem struct_live {P : Program} {depth : Node → Nat} (hp : LiveP P depth) {s
   obtain ⟨tk0, h0, hname⟩ := hs.caller
   cases hs.tasks 0 tk0 h0 with
   | callerStart hn hfr hst => exact hq.not_runnable h0 hst
-  | callerCb j hn hfr hst => exact hq.not_runnable h0 hst
   | callerWait hn hfr hst =>
-    rcases hst with h | ⟨_, herr, hown⟩
+    rcases hst with h | ⟨_, herr, hno⟩
     · exact hq.not_runnable h0 h
-    · -- `manager.run` waits: no task has failed; the output has no (announced) result
-      have hno : s.res P.g.output = none := by
-        cases hr : s.res P.g.output with
-        | none => rfl
-        | some v =>
-          obtain ⟨i', tk', h1, h2, _⟩ := hown (by rw [hr]; rfl)
-          exact absurd h2 (hq i' tk' h1)
+    · -- `manager.run` waits: no task has failed, the output has no result
       obtain ⟨tk1, h1, hname1⟩ := hs.main tk0 h0 hfr
       cases hs.tasks 1 tk1 h1 with
     | callerStart hn hfr hst => rw [hn] at hname1; cases hname1
-    | callerCb j hn hfr hst => rw [hn] at hname1; cases hname1
     | callerWait hn hfr hst => rw [hn] at hname1; cases hname1
     | main F d0 hn hfr hdf hdag hdest hout hst =>
       cases hdf with
@@ -414,7 +425,7 @@ theorem struct_live {P : Program} {depth : Node → Nat} (hp : LiveP P depth) {s
     | mainDone hn hfr hst hres => rw [hno] at hres; cases hres
     | nodeStart d0 q hn hns hfr hst => rw [hn] at hname1; cases hname1
     | nodeWait d0 q hn hns hfr hst hproc => rw [hn] at hname1; cases hname1
-    | nodeExec d0 q pc hn hns hfr hpc1 hpc2 hlive hproc => rw [hn] at hname1; cases hname1
+    | nodeExec d0 q pc hn hns hfr hpc1 hpc2 hlive hproc hnores => rw [hn] at hname1; cases hname1
     | nodeDone q r0 hn hns hfr hst hnc hev => rw [hn] at hname1; cases hname1
     | swStart d0 S0 hn hsS hfr hst => rw [hn] at hname1; cases hname1
     | swIn F sub d0 S0 hn hsS hfr hdf hsub hst => rw [hn] at hname1; cases hname1
@@ -424,7 +435,7 @@ theorem struct_live {P : Program} {depth : Node → Nat} (hp : LiveP P depth) {s
   | mainDone hn hfr hst hres => rw [hn] at hname; cases hname
   | nodeStart d0 q hn hns hfr hst => rw [hn] at hname; cases hname
   | nodeWait d0 q hn hns hfr hst hproc => rw [hn] at hname; cases hname
-  | nodeExec d0 q pc hn hns hfr hpc1 hpc2 hlive hproc => rw [hn] at hname; cases hname
+  | nodeExec d0 q pc hn hns hfr hpc1 hpc2 hlive hproc hnores => rw [hn] at hname; cases hname
   | nodeDone q r0 hn hns hfr hst hnc hev => rw [hn] at hname; cases hname
   | swStart d0 S0 hn hsS hfr hst => rw [hn] at hname; cases hname
   | swIn F sub d0 S0 hn hsS hfr hdf hsub hst => rw [hn] at hname; cases hname
